@@ -12,6 +12,7 @@ import Ldap3V.Lemmas.FilterPrint
 import Ldap3V.Lemmas.FilterTlv
 import Ldap3V.Lemmas.FilterDialect
 import Ldap3V.Lemmas.GenPureFeed
+import Ldap3V.Lemmas.FilterShape
 namespace Ldap3V
 open Spec.Filter
 open Spec (Filter)
@@ -147,6 +148,55 @@ theorem C08_rejects_adjacent_asterisks (s : Bytes) (h : noAdjacentStars false s 
     Filter.parse s = none :=
   Filter.reject_of_inv (fun _ _ hg => Filter.noAdjacentStars_GLib hg) s h
 
+/-! ### shape of the output, for every accepted string (what C02 and C19 assume about the filter element) -/
+
+/-- Every accepted filter string yields a tree which
+* uses classes 0..3 and tag numbers ≤ 30 throughout (`Spec.lowTags`), the root being one of the
+  alternatives of the RFC 4511 `Filter` CHOICE (context class, tag 0..9);
+* is as deep as the string nests parentheses (`Filter.nest 0 s`, the greatest parenthesis depth reached
+  in `s`), within −1 (`(a=*)` is a primitive) and +2 (the bare item `a=*b*` has two constructed levels
+  and no parenthesis); +1 when the string starts with `(`;
+* under the size bound `|s| < 2^58` is one the writer can represent (`Spec.WF`: every content length
+  fits a `usize`), its encoding being at most `32·|s| + 51` octets long.
+The size bound is a hypothesis on the input only; a Rust `&str` is shorter than 2^63 octets, so the
+statement leaves out strings of 2^58 octets (256 PiB) and more. -/
+theorem C08_output_shape (s : Bytes) (t : Tag) (h : Filter.parse s = some t) :
+    Spec.lowTags t.toTlv = true ∧ (t.toTlv.cls = 2 ∧ t.toTlv.id ≤ 9) ∧
+    t.toTlv.depth ≤ Filter.nest 0 s + 2 ∧ Filter.nest 0 s ≤ t.toTlv.depth + 1 ∧
+    (s.head? = some 0x28 → t.toTlv.depth ≤ Filter.nest 0 s + 1) ∧
+    (s.length < 288230376151711744 →
+      Spec.WF t.toTlv ∧ (encode t.toTlv).length ≤ 32 * s.length + 51) := by
+  obtain ⟨h1, h2, h3, h4, h5, _⟩ := Filter.parse_shape h
+  exact ⟨h1, h2, h3, h4, h5, fun hl => Filter.parse_wf h hl⟩
+
+/-- The matched-values parser (`parse_matched_values`) yields a universal SEQUENCE of at least one
+RFC 3876 `SimpleFilterItem` (context class, tag 3..9), at most three levels deep, with low tags
+throughout, and well-formed for the writer under the same size bound. -/
+theorem C08_mv_output_shape (s : Bytes) (t : Tag) (h : Filter.parseMatchedValues s = some t) :
+    ∃ ks, t.toTlv = .cons 0 16 ks ∧ ks ≠ [] ∧ ks.all Codecs.Spec.isSimpleItem = true ∧
+      Spec.lowTags t.toTlv = true ∧ t.toTlv.depth ≤ 3 ∧
+      (s.length < 288230376151711744 → Spec.WF t.toTlv ∧ (encode t.toTlv).length ≤ 32 * s.length) := by
+  obtain ⟨ks, h1, h2, h3, h4, h5, _⟩ := Filter.parseMv_shape h
+  exact ⟨ks, h1, h2, h3, h4, h5, fun hl => Filter.parseMv_wf h hl⟩
+
+/-- The filter parser has no depth limit: `(a=b)` under `n` negations `(!(!…))` is accepted for every
+`n`, and its tree is `n + 1` constructed levels deep. -/
+theorem C08_any_depth_accepted (n : Nat) :
+    ∃ t, Filter.parse (Filter.notStr n [0x28, 0x61, 0x3D, 0x62, 0x29]) = some t ∧ t.toTlv.depth = n + 1 := by
+  obtain ⟨t, h, _, hd⟩ := Filter.parse_notN n
+  exact ⟨t, h, hd⟩
+
+/-- … whereas lber's parser stops at `maxDepth` = 64 levels.  A filter whose string nests deeper than 65
+is therefore WRITTEN — the tree has a BER encoding (`Spec.Enc`) and `encode` produces it — but cannot be
+READ BACK by the library's own parser: the answer is `error`, whatever follows.  (Inside a SearchRequest the
+filter sits two levels down, so the limit for a search filter is 62 levels: `Spec.FilterOk`,
+`C02_parsed_filter_ok`, `C02_deep_filter_not_read_back`.) -/
+theorem C08_deep_written_not_read_back (s : Bytes) (t : Tag) (h : Filter.parse s = some t)
+    (hn : maxDepth + 1 < Filter.nest 0 s) (hl : s.length < 288230376151711744) (rest : Bytes)
+    (hr : (encode t.toTlv ++ rest).length < 18446744073709551616) :
+    Spec.Enc t.toTlv (encode t.toTlv) ∧ parseTag (encode t.toTlv ++ rest) = .error :=
+  Filter.deep_not_read_back h hn hl rest hr
+
 /-! ### non-vacuity (tests, labelled as such) -/
 
 /-- `(cn:Dn:2.4.6:=x)` (rejected before the fix of F19) is in the RFC 4515 language: type `cn`,
@@ -215,6 +265,27 @@ example : IsAttrDesc .lib [0x61] ∧ (0x2A : UInt8) ∈ [0x3D, 0x62, 0x2A] :=
 example : G .lib (.eq [0x61] [0x76]) [0x28, 0x61, 0x3D, 0x76, 0x29] := by
   simp only [G]
   exact ⟨_, GItem.eq ⟨[0x61], [], Or.inl (by decide), by simp, rfl⟩ (.lit (by decide) .nil), rfl⟩
+
+/-- shape: `(&(a=b)(!(c=*d*)))` nests 3 deep, its tree 4 (`and`, `not`, substring, SEQUENCE OF); the bare
+`a=*b*` nests 0 deep, its tree 2; `(a=*)` nests 1 deep, its tree 0 -/
+example : Filter.nest 0 [0x28, 0x26, 0x28, 0x61, 0x3D, 0x62, 0x29, 0x28, 0x21, 0x28, 0x63, 0x3D, 0x2A, 0x64, 0x2A,
+      0x29, 0x29, 0x29] = 3 ∧
+    (Filter.parse [0x28, 0x26, 0x28, 0x61, 0x3D, 0x62, 0x29, 0x28, 0x21, 0x28, 0x63, 0x3D, 0x2A, 0x64, 0x2A,
+      0x29, 0x29, 0x29]).map (fun t => (t.toTlv.depth, t.toTlv.cls, t.toTlv.id, Spec.lowTags t.toTlv)) =
+      some (4, 2, 0, true) ∧
+    (Filter.parse [0x61, 0x3D, 0x2A, 0x62, 0x2A]).map (fun t => t.toTlv.depth) = some 2 ∧
+    Filter.nest 0 [0x61, 0x3D, 0x2A, 0x62, 0x2A] = 0 ∧
+    (Filter.parse [0x28, 0x61, 0x3D, 0x2A, 0x29]).map (fun t => t.toTlv.depth) = some 0 ∧
+    Filter.nest 0 [0x28, 0x61, 0x3D, 0x2A, 0x29] = 1 := by decide
+/-- matched values: `((a=b)(c=*))` -/
+example : (Filter.parseMatchedValues [0x28, 0x28, 0x61, 0x3D, 0x62, 0x29, 0x28, 0x63, 0x3D, 0x2A, 0x29, 0x29]).map
+    (fun t => encode t.toTlv) = some [0x30, 0x0B, 0xA3, 0x06, 0x04, 0x01, 0x61, 0x04, 0x01, 0x62, 0x87, 0x01, 0x63] := by
+  decide
+/-- the hypothesis of `C08_deep_written_not_read_back` is met by `(a=b)` under 66 negations: the string
+nests 67 deep, is accepted, and its 67-level tree has an encoding the parser refuses -/
+example : maxDepth + 1 < Filter.nest 0 (Filter.notStr 66 [0x28, 0x61, 0x3D, 0x62, 0x29]) ∧
+    (Filter.notStr 66 [0x28, 0x61, 0x3D, 0x62, 0x29]).length < 288230376151711744 := by
+  rw [Filter.nest_notStr, Filter.length_notStr]; decide
 
 /-! ### tie by regeneration (translate/pure_fns.py): the lexical classes and the `\\hh` state machine of
 the *current* src/filter.rs are the model's. -/
